@@ -37,6 +37,9 @@ class FuncInfo:
 
     def loc(self, node: ast.AST | None = None) -> str:
         n = node if node is not None else self.node
+        origin = getattr(n, "_sa_origin", None)
+        if origin is not None:  # statement expanded from a helper (sa/inline.py): cite the helper's own file and line
+            return f"{origin[0]}:{getattr(n, 'lineno', 0)} (expanded from {origin[1]} into {self.qualname})"
         return f"{self.module.relpath}:{getattr(n, 'lineno', 0)}"
 
 
